@@ -155,6 +155,10 @@ func dischargeOne(o *Obligation, idx int, cfg SolverCfg) {
 		}
 	}
 	_ = out
+	if o.KnownFailing && res != "unsat" {
+		o.Result, o.Solver, o.Output = "unknown", "all", "known finding: only the short first stage was tried"
+		return
+	}
 	// stage 2: race all solvers with the full budget
 	type r struct {
 		res, out, name string
